@@ -423,3 +423,82 @@ func Diff(want, got Contents, mst string, max int) []string {
 	}
 	return out
 }
+
+// ParseLP parses a line rendered by Point.LP (safe identifiers, no escapes except in
+// string values) back into a Point. Used to replay witnesses.
+func ParseLP(line string) (Point, error) {
+	var p Point
+	i := strings.IndexByte(line, ' ')
+	if i < 0 {
+		return p, fmt.Errorf("bad line %q", line)
+	}
+	head, rest := line[:i], line[i+1:]
+	hp := strings.Split(head, ",")
+	p.Mst = hp[0]
+	p.Tags = map[string]string{}
+	for _, kv := range hp[1:] {
+		x := strings.SplitN(kv, "=", 2)
+		if len(x) != 2 {
+			return p, fmt.Errorf("bad tag %q", kv)
+		}
+		p.Tags[x[0]] = x[1]
+	}
+	j := strings.LastIndexByte(rest, ' ')
+	if j < 0 {
+		return p, fmt.Errorf("bad line %q", line)
+	}
+	t, err := strconv.ParseInt(rest[j+1:], 10, 64)
+	if err != nil {
+		return p, err
+	}
+	p.T = t
+	p.Fields = map[string]Value{}
+	fs := rest[:j]
+	for len(fs) > 0 {
+		eq := strings.IndexByte(fs, '=')
+		if eq < 0 {
+			return p, fmt.Errorf("bad fields %q", fs)
+		}
+		name := fs[:eq]
+		fs = fs[eq+1:]
+		var raw string
+		if strings.HasPrefix(fs, `"`) {
+			k := 1
+			for k < len(fs) && fs[k] != '"' {
+				if fs[k] == '\\' {
+					k++
+				}
+				k++
+			}
+			raw = fs[:k+1]
+			fs = fs[k+1:]
+			s := strings.NewReplacer(`\"`, `"`, `\\`, `\`).Replace(raw[1 : len(raw)-1])
+			p.Fields[name] = Str(s)
+		} else {
+			k := strings.IndexByte(fs, ',')
+			if k < 0 {
+				k = len(fs)
+			}
+			raw = fs[:k]
+			fs = fs[k:]
+			switch {
+			case raw == "true" || raw == "false":
+				p.Fields[name] = Bool(raw == "true")
+			case strings.HasSuffix(raw, "i"):
+				v, err := strconv.ParseInt(strings.TrimSuffix(raw, "i"), 10, 64)
+				if err != nil {
+					return p, err
+				}
+				p.Fields[name] = Int(v)
+			default:
+				v, err := strconv.ParseFloat(raw, 64)
+				if err != nil {
+					return p, err
+				}
+				p.Fields[name] = Float(v)
+			}
+		}
+		fs = strings.TrimPrefix(fs, ",")
+	}
+	return p, nil
+}
